@@ -178,11 +178,21 @@ Print Assumptions C15_lookup_by_frequency_dr_prefix_refuted.
 
 (* the model of GetCFList equals the description written from the property: first
    five custom channels in the CFList data-rate range, in order (nothing when there
-   is none), or the exact enabled-channel masks from LoRaWAN 1.0.3 on *)
+   is none with a frequency other than 0), or the exact enabled-channel masks from LoRaWAN 1.0.3 on *)
 Theorem C15_cflist_content : forall (s : st) (v : pversion),
   get_cflist s v = spec_cflist (extra s) (cfmin s) (cfmax s) (up s) v.
 Proof. exact get_cflist_spec. Qed.
 Print Assumptions C15_cflist_content.
+
+(* frequency 0 marks an unused slot: before the fix for finding C15-7 nothing was offered
+   when the FIRST eligible custom channel had frequency 0, although later ones exist *)
+Theorem C15_cflist_zero_slot_prefix_refuted :
+  let c0 := mkChannel 0 0 5 false true in
+  let c1 := mkChannel 867100000 0 5 true true in
+  let s := mkSt true 0 5 [c0; c1] [c0; c1] [] in
+  cflist_channels_prefix s = None /\ cflist_channels s = Some (CFChannels [0; 867100000; 0; 0; 0]).
+Proof. exact cflist_channels_prefix_refuted. Qed.
+Print Assumptions C15_cflist_zero_slot_prefix_refuted.
 
 Theorem C15_cflist_only_custom : forall (s : st) (v : pversion) fs f,
   get_cflist s v = Some (CFChannels fs) -> In f fs ->
